@@ -94,7 +94,7 @@ class ProcRef:
                 mon.lost.append((now, m.name, p))
                 self.fail_with_part += 1
             self.part = None
-        mon.occ.setdefault(('shutdown', m.name), []).append((now, f))
+        mon.occ.setdefault(('shutdown', m.name), []).append((now, f, p.id if p is not None else None))
 
     def rs(self, m):
         mon = self.mon
@@ -715,9 +715,14 @@ class Monitor:
                 continue
             if d.level() != content:
                 self.bad('C05.level', f'{d.name} level() is {d.level()} but it stores {content} part(s) ({now})')
-            if content > d.capacity:
-                self.bad('C05.capacity', f'{d.name} stores {content} parts, capacity {d.capacity} ({now})')
-            if content == d.capacity:
+            cap = d.capacity
+            sc = self.m.specs.get(d.name, {}).get('cap')
+            if isinstance(sc, (int, float)):
+                cap = min(cap, math.floor(sc))     # the capacity the buffer was created with (fractions count down)
+            if content > cap:
+                self.bad('C05.capacity', f'{d.name} stores {content} parts, it was created with capacity '
+                         f'{sc if sc is not None else d.capacity} ({now})')
+            if content == cap:
                 b['full'] = True
             stored = d.stored_parts + ([d._part] if d._part is not None else [])
             fifo = b['fifo']
@@ -758,7 +763,8 @@ class Monitor:
                 if got != self.prod_cb.get(d.name, []):
                     self.bad('C15.produced', f'{d.name}: produced_part records {got[-3:]} differ from the finish '
                              f'occurrences {self.prod_cb.get(d.name, [])[-3:]} ({now})')
-                fails = [t for (t, f) in self.occ.get(('shutdown', d.name), []) if f]
+                fails = [t for (t, f, _) in self.occ.get(('shutdown', d.name), []) if f]
+                lost = [(t, pid) for (t, f, pid) in self.occ.get(('shutdown', d.name), []) if f and pid is not None]
                 recs = sd.get('device_failure', {}).get(d.name, [])
                 # a failure of a machine that is already failed is not an occurrence the statement describes:
                 # records without a lost part are tolerated there, every observed failure needs its record
@@ -772,6 +778,10 @@ class Monitor:
                 for r in recs:
                     if r[0] > now:
                         self.bad('C15.stamp', f'device_failure record of {d.name} stamped {r[0]} > now {now}')
+                for (t, pid) in lost:
+                    if (t, pid) not in [tuple(r) for r in recs]:
+                        self.bad('C15.failure', f'{d.name}: the failure at {t} lost part id {pid} but the device_failure '
+                                 f'records are {recs} ({now})')
             if isinstance(d, Source):
                 recs = sd.get('supplied_new_part', {}).get(d.name, [])
                 nrec += len(recs)
